@@ -82,21 +82,23 @@ def main(tier):
             nev += res['evals']
         else:
             chk.cov['exhaustive'] = False
-    sched = {}
+    import c16_sched, mclib
     try:
-        import c16_sched
-        sched = c16_sched.sched_part(chk, tier) or {}
-    except ImportError:
-        chk.cov['sched_part'] = 'not available'
+        sched = c16_sched.sched_part(chk, tier)      # Matrix.fill_coverage adds schedules/states/transitions to chk.cov
+    except mclib.MachineryError as e:
+        print('MACHINERY-ERROR C16: %s' % e)
+        return 2
     chk.cov['E1'] = e1
     chk.cov['E2'] = sched
-    chk.cov['states'] = sched.get('states', 0) + chk.cov['distinct_nontrivial']
-    chk.cov['transitions'] = sched.get('transitions', 0) + nev
-    chk.cov['traces_validated_against_impl'] = sched.get('schedules', 0) + nev
+    chk.cov['evaluations'] += 0
+    chk.cov['distinct_nontrivial_rule_E2'] = 'E2 cases whose interleavings give more than one distinct (returned values, final bytes) combination are counted in distinct_nontrivial together with the E1 functions whose reference result varies over the inputs'
+    chk.cov['states'] = chk.cov.get('states', 0)
+    chk.cov['transitions'] = chk.cov.get('transitions', 0) + nev
+    chk.cov['traces_validated_against_impl'] = chk.cov.get('traces_validated_against_impl', 0) + nev
     chk.cov['rule'] = ('E1: each of the 7 atomic loads, 7 stores, 42 read-modify-write and 7 compare-exchange flavours (+ fence) as a one-instruction function with static '
                        'offset 0 and 8 over naturally aligned addresses x operand alphabets; compare-exchange with hit / miss / upper-bits-set expected values; result and ALL '
                        'memory bytes compared with the reference after every call, on plain and shared memories, gcc and clang+UBSan/ASan. E2: see the E2 block '
-                       '(all interleavings of concurrent operations under the controlled scheduler, sequential-model replay of the produced order, ThreadSanitizer).')
+                       '(threads of one instance family run translated atomic operations on the same / overlapping cells; scheduling points at thread start and at every __atomic builtin; ALL interleavings; brute-force linearizability against a 16-byte sequential model incl. final bytes; the same schedules in a ThreadSanitizer build; the forced big-endian mutex RMW path likewise).')
     chk.sample({'program': 'i64.32.atomic.rmw.cmpxchg offset=8', 'inputs': '(addr, stored value, selector, replacement)'})
     chk.assumptions += ['hardware atomicity of the __atomic builtins is assumed; their use (one atomic access per instruction) is what E2/TSan checks']
     return chk.finish()
